@@ -49,6 +49,9 @@ type Check struct {
 	// RaceFilter: for checks running in a -race binary, a reported data race is a
 	// violation if one of its frames is in one of these packages (nil = any).
 	RaceFilter []string
+	// RaceIgnore: races whose report contains all '&&'-separated parts of one entry are not violations (benign races of the pinned
+	// tree, listed in DESIGN.md)
+	RaceIgnore []string
 	// ReportAs is the property id used in VIOLATION lines, replay and evidence
 	// files when this check is one part of a property's check (default: ID).
 	ReportAs string
@@ -400,7 +403,7 @@ func lastLine(out []byte) []byte {
 }
 
 // parseRaces turns the race detector's reports into violations.
-func parseRaces(stderr string, filter []string, prop string) (out []*ViolationRec) {
+func parseRaces(stderr string, filter, ignore []string, prop string) (out []*ViolationRec) {
 	seen := map[string]bool{}
 	for _, rep := range strings.Split(stderr, "WARNING: DATA RACE")[1:] {
 		if i := strings.Index(rep, "=================="); i >= 0 {
@@ -420,6 +423,17 @@ func parseRaces(stderr string, filter []string, prop string) (out []*ViolationRe
 						relevant = true
 					}
 				}
+			}
+		}
+		for _, ig := range ignore {
+			all := true
+			for _, part := range strings.Split(ig, "&&") {
+				if !strings.Contains(rep, part) {
+					all = false
+				}
+			}
+			if all {
+				relevant = false
 			}
 		}
 		if !relevant {
@@ -540,7 +554,7 @@ func CheckMain(id, tier string) int {
 				err = <-waitCh
 			}
 			out := []byte(stdout.String())
-			if races := parseRaces(stderr.String(), ch.RaceFilter, reportID(ch)); len(races) > 0 {
+			if races := parseRaces(stderr.String(), ch.RaceFilter, ch.RaceIgnore, reportID(ch)); len(races) > 0 {
 				r := &wres{}
 				if e2 := json.Unmarshal(lastLine(out), r); e2 != nil {
 					r = &wres{}
